@@ -36,6 +36,19 @@ OPS: List[Tuple[str, str, int]] = (
 )
 
 
+def temp_junk(regs: Dict[str, int], h: int) -> bool:
+    """Lifter scratch registers TEMP0..TEMP13 at instruction entry: generated junk for half of the cases (a pure
+    function of the case hash).  They are part of the Python register file and keep whatever earlier instructions
+    left in them; the documented result is a function of the architectural inputs only."""
+    if not (mix32(h, 0x7E) & 1):
+        return False
+    for i in range(14):
+        v = mix32(h, 0x7E, i + 1)
+        k = v >> 28
+        regs[f"TEMP{i}"] = 0 if k < 2 else (v & 0xFF) if k < 4 else 0xFFFFFF if k < 6 else (v & 0xFFFFFF)
+    return True
+
+
 def build_case(form: str, opcode: int, a: int, b: int, cin: int, salt: int) -> Dict[str, Any]:
     """Fully expanded case dict for one operand triple; the untouched state (other registers, F bits 2..7, memory
     fill seed) varies with the triple so that the frame condition is exercised too."""
@@ -67,6 +80,7 @@ def build_case(form: str, opcode: int, a: int, b: int, cin: int, salt: int) -> D
     for i, byte in enumerate(code + bytes(8)):
         mem.append([PC + i, byte])
     mem += [[IMEM + 0xEC, 0], [IMEM + 0xED, 0x11], [IMEM + 0xEE, 0x22]]
+    temp_junk(regs, h)
     return {"regs": regs, "power": "running", "seed": h, "mem": mem, "steps": 1}
 
 
@@ -92,7 +106,7 @@ def enum_shard(task: Tuple[int, int, int, int]) -> Report:
                             continue
                     case = build_case(form, opcode, a, b, cin, seed)
                     j = K.judge(case)
-                    lab = [f"enum:{name} {form.split(':')[1]}"]
+                    lab = [f"enum:{name} {form.split(':')[1]}", "temps:junk" if K.has_temp_junk(case) else "temps:clear"]
                     if j.status == "skip":
                         lab.append("skip:" + j.reason)
                     elif j.status != "ok":
@@ -144,6 +158,7 @@ def grid_cases(seed: int) -> List[Tuple[str, Dict[str, Any]]]:
                 "U": 0x30000 + ((h >> 8) & 0xFFFF), "S": 0x40000 + ((h >> 12) & 0xFFFF), "PC": PC, "F": (h >> 20) & 0xFF}
         mem = [[PC + i, byte] for i, byte in enumerate(code + bytes(8))]
         mem += [[IMEM + 0xEC, 0], [IMEM + 0xED, 0x11], [IMEM + 0xEE, 0x22]]
+        temp_junk(regs, h)
         return {"regs": regs, "power": "running", "seed": h, "mem": mem, "steps": 1}
 
     # ADD/SUB register pairs documented in the README rows
@@ -246,7 +261,7 @@ def grid_shard(task: Tuple[int, int, int]) -> Report:
         if i % nshards != shard:
             continue
         j = K.judge(case)
-        lab = [label]
+        lab = [label, "temps:junk" if K.has_temp_junk(case) else "temps:clear"]
         if j.status == "skip":
             lab.append("skip:" + j.reason)
         elif j.status != "ok":
